@@ -171,7 +171,27 @@ impl Event {
 /// assumption (reported): a document has at most u32::MAX actors
 pub open spec fn table_fits(a: &Automerge) -> bool { a.ops.actors.len() <= u32::MAX }
 
+//@ item rust/automerge/src/types.rs | struct ObjId
+#[verifier::external_body] pub struct ObjMeta { _p: () }
+impl ObjMeta { pub uninterp spec fn spec_id(&self) -> ObjId; }
 impl Automerge {
+    /// ASSUMED contract of get_obj_meta (object index lookup): the meta it returns is for the id asked
+    #[verifier::external_body]
+    pub fn get_obj_meta(&self, obj: ObjId) -> (r: Result<ObjMeta, AutomergeError>)
+        ensures r matches Ok(m) ==> m.spec_id() == obj { unimplemented!() }
+
+//@ fn rust/automerge/src/automerge.rs | impl Automerge | exid_to_obj
+//@   ret r
+//@   spec
+        requires table_fits(self),
+        ensures
+            // C37 / C30: an id whose actor this replica does not know is an error, never another object; a resolved
+            // object is the one named by (counter, actor)
+            id matches ExId::Id(ctr, actor, idx) ==> ((forall|i: int| 0 <= i < self.ops.actors.len() ==> self.ops.actors[i] != actor) ==> r is Err),
+            id matches ExId::Id(ctr, actor, idx) ==> (r matches Ok(m) ==> m.spec_id().0.spec_counter() == ctr
+                && m.spec_id().0.spec_actor() < self.ops.actors.len() && self.ops.actors[m.spec_id().0.spec_actor() as int] == actor),
+//@ end
+
 //@ fn rust/automerge/src/automerge.rs | impl Automerge | exid_to_opid
 //@   ret r
 //@   spec
